@@ -1,5 +1,7 @@
 import HmfVerif.Proofs.History
 import HmfVerif.Props.C01
+import HmfVerif.Proofs.Cone
+import HmfVerif.Gen.Desc
 /-!
 # C13 — parameter changes recompute only what depends on them  (statements about `M'`)
 
@@ -63,6 +65,66 @@ theorem independent_read_executes_nothing (E : Env) (sw : Bool) (s : St) (p : Na
       some (.ok (s.cache m), s.deps m, setV sw s p v) := by
   obtain ⟨h1, h2, h3⟩ := independent_untouched sw s p v m h
   simp [evalM, h1, h2, h3, hc]
+
+/-! ## Static independence for the real classes (descriptors regenerated from source each run) -/
+open Gen in
+/-- parameters the property names as never touching the transfer function -/
+def indepParams : List Name :=
+  [N.z, N.sigma_8, N.delta_c, N.hmf_model, N.hmf_params, N.filter_model, N.filter_params, N.Mmin, N.Mmax,
+   N.dlog10m, N.mdef_model, N.mdef_params, N.growth_model, N.growth_params, N.disable_mass_conversion,
+   N.takahashi, N.use_splined_growth]
+open Gen in
+def transferCore : List Name := [N._unnormalised_lnT, N.transfer, N.k]
+open Gen in
+/-- mass-function-only parameters -/
+def mfOnlyParams : List Name :=
+  [N.Mmin, N.Mmax, N.dlog10m, N.hmf_model, N.hmf_params, N.mdef_model, N.mdef_params, N.delta_c,
+   N.filter_model, N.filter_params, N.disable_mass_conversion]
+
+/-- `p` is outside the static cone of `q` in class `C` -/
+def outside (C : ClassDesc) (p q : Name) : Bool := !(C.cone q).contains p
+
+/-- independence table, CDM classes: redshift, sigma_8, delta_c, fit, filter, mass-grid, mdef, growth
+    (and the two switches) are outside the static cone of the un-normalised transfer function, the
+    transfer model instance and the wavenumber grid. -/
+theorem independence_table_cdm :
+    [Gen.descTransfer, Gen.descMassFunction].all (fun C =>
+      indepParams.all (fun p => transferCore.all (fun q => outside C p q))) = true := by decide +kernel
+
+/-- mass-function-only parameters are outside the cone of **every** quantity defined by `Transfer`
+    or `Cosmology`. -/
+theorem mf_only_outside_power_quantities :
+    mfOnlyParams.all (fun p => Gen.descTransfer.quantNames.all (fun q => outside Gen.descMassFunction p q)) = true := by
+  decide +kernel
+
+/-- WDM classes: the same table **minus** `z → _unnormalised_lnT` (known finding: the WDM component
+    takes `z`); stated as `_partial`. -/
+theorem independence_table_wdm_partial :
+    [Gen.descTransferWDM, Gen.descMassFunctionWDM].all (fun C =>
+      indepParams.all (fun p => transferCore.all (fun q =>
+        (p == Gen.N.z && q == Gen.N._unnormalised_lnT) || outside C p q))) = true := by decide +kernel
+
+/-- the excluded pair really is in the cone (the known finding, as a theorem about the source) -/
+theorem wdm_z_reaches_transfer_function :
+    outside Gen.descTransferWDM Gen.N.z Gen.N._unnormalised_lnT = false := by decide +kernel
+
+/-- **C13 for the real classes.** If `outside C p q` then after any history from a fresh object
+    quantity `q` is never indexed under parameter `p`, hence (by `independent_untouched`) any change of
+    `p` leaves `q` clean with the identical cell. -/
+theorem real_independence (C : ClassDesc) (I N vd) (hwf : C.WF = true) (fuel : Nat) (ops : List Op)
+    (pv : Name → Val) (p q : Name) (hq : (C.bodyOf (C.resolve q) q).isSome = true)
+    (hout : outside C p q = true) (v : Val) :
+    let s := (run (C.toEnv I N vd) fuel (St.fresh pv) ops).2
+    (setV (C.isSwitch p) s p v).clean q = s.clean q ∧ (setV (C.isSwitch p) s p v).cache q = s.cache q := by
+  intro s
+  have hwr : C.wfReads = true := by
+    unfold ClassDesc.WF at hwf; simp only [Bool.and_eq_true] at hwf; exact hwf.1.1.1
+  have hx : p ∉ C.cone q := by
+    simp only [outside, Bool.not_eq_true', List.contains_eq_mem, decide_eq_false_iff_not] at hout
+    exact hout
+  have hn := never_indexed_outside_cone C I N vd hwr fuel ops pv q p hq hx
+  obtain ⟨h1, h2, _⟩ := independent_untouched (C.isSwitch p) s p v q hn
+  exact ⟨h1, h2⟩
 
 /-- non-vacuity / illustration on `C01.exEnv`: after reading quantity 10, changing parameter 2
     re-executes it, re-setting parameter 2 to the same value does not. -/
